@@ -398,7 +398,16 @@ def rule_puller(model):
     return r
 
 
-RULES = [rule_effects, rule_puller]
+def _inl(rule):
+    """Run a rule on the view in which helpers that are new w.r.t. the
+    reference tree are inlined at their call sites (normalise.N2)."""
+    def run(model):
+        return rule(model.inlined_view())
+    run.__name__ = rule.__name__
+    return run
+
+
+RULES = [_inl(rule_effects), _inl(rule_puller)]
 EXPLANATION = (
     'Effect classification of every use of the sequence value in the '
     'functions of the batch path (forcing vs. indexing vs. passing on to an '
